@@ -6,8 +6,15 @@ package pool
 
 import (
 	"context"
+	"crypto/ecdsa"
+	"crypto/elliptic"
+	crand "crypto/rand"
+	"crypto/tls"
+	"crypto/x509"
+	"crypto/x509/pkix"
 	"errors"
 	"fmt"
+	"math/big"
 	"net"
 	"strings"
 	"sync"
@@ -707,4 +714,113 @@ func TestC11PoolConstruction(t *testing.T) {
 			})
 		})
 	})
+}
+
+// TLS dial path under the race detector: a cold pool whose ClientOptions carry a TLS config and
+// the caller's own *net.Dialer is hit by several users at once, so several ch.Dial calls share
+// one Options value (real loopback TCP + TLS; not in a bubble - the network is real here).
+func TestC12TLSDialSharedOptions(t *testing.T) {
+	st := stats.G()
+	cert, pool := selfSignedCert(t)
+	ln, err := tls.Listen("tcp", "127.0.0.1:0", &tls.Config{Certificates: []tls.Certificate{cert}})
+	if err != nil {
+		t.Skipf("no loopback listener: %v", err)
+	}
+	defer ln.Close()
+	go func() {
+		for {
+			c, err := ln.Accept()
+			if err != nil {
+				return
+			}
+			go serveHelloAndPongs(c)
+		}
+	}()
+	rapid.Check(t, func(rt *rapid.T) {
+		users := rapid.IntRange(2, 6).Draw(rt, "users")
+		dialer := &net.Dialer{}
+		if rapid.Bool().Draw(rt, "dialer-with-timeout") {
+			dialer.Timeout = 5 * time.Second
+		}
+		p, err := chpool.New(context.Background(), chpool.Options{
+			ClientOptions: ch.Options{Address: ln.Addr().String(), TLS: &tls.Config{RootCAs: pool, ServerName: "localhost"}, Dialer: dialer, Logger: zap.NewNop(),
+				DialTimeout: time.Duration(rapid.IntRange(1, 5).Draw(rt, "dial-timeout-s")) * time.Second},
+			MaxConns: int32(users),
+		})
+		if err != nil {
+			rt.Fatalf("chpool.New: %v", err)
+		}
+		var wg sync.WaitGroup
+		errs := make([]error, users)
+		for u := 0; u < users; u++ {
+			wg.Add(1)
+			go func(u int) {
+				defer wg.Done()
+				ctx, cancel := context.WithTimeout(context.Background(), 20*time.Second)
+				defer cancel()
+				errs[u] = p.Ping(ctx)
+			}(u)
+		}
+		wg.Wait()
+		p.Close()
+		for u, e := range errs {
+			if e != nil {
+				rt.Fatalf("user %d: Ping over TLS failed: %v", u, e)
+			}
+		}
+		st.Case(stats.Hash("c12tls", users, dialer.Timeout, rapid.Uint64().Draw(rt, "salt")), true, func() any {
+			return map[string]any{"kind": "tls-cold-pool", "users": users}
+		})
+	})
+}
+
+// serveHelloAndPongs: a minimal server on a real connection - answers the client hello (and
+// addendum) with a server hello, then every Ping with a Pong.
+func serveHelloAndPongs(c net.Conn) {
+	defer c.Close()
+	cs := &ref.ClientStream{ServerRev: 54460}
+	buf := make([]byte, 4096)
+	helloSent, pongs := false, 0
+	for {
+		_ = c.SetReadDeadline(time.Now().Add(30 * time.Second))
+		n, err := c.Read(buf)
+		if n > 0 {
+			cs.Feed(buf[:n])
+			if !helloSent && cs.Count(ref.PHello) > 0 {
+				e := &ref.Enc{NoMap: true}
+				ref.EncodeServerHello(e, ref.ServerHello{Name: "SimHouse", Major: 23, Minor: 8, Revision: 54460, DisplayName: "tls", Timezone: "UTC"}, int(cs.Packets[0].Hello.Revision))
+				if _, werr := c.Write(e.B); werr != nil {
+					return
+				}
+				helloSent = true
+			}
+			for pongs < cs.Count(ref.PPing) {
+				if _, werr := c.Write([]byte{ref.ServerPongCode}); werr != nil {
+					return
+				}
+				pongs++
+			}
+		}
+		if err != nil {
+			return
+		}
+	}
+}
+
+func selfSignedCert(t *testing.T) (tls.Certificate, *x509.CertPool) {
+	key, err := ecdsa.GenerateKey(elliptic.P256(), crand.Reader)
+	if err != nil {
+		t.Fatal(err)
+	}
+	tmpl := &x509.Certificate{SerialNumber: big.NewInt(1), Subject: pkix.Name{CommonName: "localhost"}, DNSNames: []string{"localhost"},
+		NotBefore: time.Now().Add(-time.Hour), NotAfter: time.Now().Add(24 * time.Hour), KeyUsage: x509.KeyUsageDigitalSignature | x509.KeyUsageCertSign,
+		ExtKeyUsage: []x509.ExtKeyUsage{x509.ExtKeyUsageServerAuth}, IsCA: true, BasicConstraintsValid: true, IPAddresses: []net.IP{net.ParseIP("127.0.0.1")}}
+	der, err := x509.CreateCertificate(crand.Reader, tmpl, tmpl, &key.PublicKey, key)
+	if err != nil {
+		t.Fatal(err)
+	}
+	leaf, _ := x509.ParseCertificate(der)
+	pool := x509.NewCertPool()
+	pool.AddCert(leaf)
+	return tls.Certificate{Certificate: [][]byte{der}, PrivateKey: key, Leaf: leaf}, pool
 }
